@@ -89,6 +89,9 @@ class Exec:
             return out
         if isinstance(e, ast.NamedExpr):
             return self.terms(e.value, env, depth + 1)
+        if isinstance(e, (ast.Compare, ast.UnaryOp)) or (isinstance(e, ast.BoolOp) and isinstance(e.op, ast.And)) or (isinstance(e, ast.Call) and isinstance(e.func, ast.Name) and e.func.id in ("bool", "any", "all", "isinstance") and not isinstance(getattr(e, "op", None), ast.USub)):
+            if not (isinstance(e, ast.UnaryOp) and not isinstance(e.op, ast.Not)):
+                return [(TRUE, ("bool", self.cond(e, env)))]
         if isinstance(e, ast.Call):
             ci = None
             try:
@@ -233,6 +236,8 @@ class Exec:
 
     def truthy(self, t) -> Formula:
         k = t[0]
+        if k == "bool":
+            return t[1]
         if k == "param":
             return atom(f"bool({t[1]})")
         if k == "const":
@@ -245,6 +250,8 @@ class Exec:
 
     def isnone(self, t) -> Formula:
         k = t[0]
+        if k == "bool":
+            return FALSE
         if k == "param":
             return atom(f"{t[1]} is None")
         if k == "const":
@@ -475,6 +482,8 @@ def _is_empty(alts) -> bool:
 
 def show_term(t) -> str:
     k = t[0]
+    if k == "bool":
+        return "a truth value"
     if k == "param":
         return f"the parameter `{t[1]}`"
     if k == "const":
